@@ -160,6 +160,10 @@ def nearest_cases(tier):
         if sh['n'] <= (3 if q else 5):
             out.append(tree_case('c04', sh, 'NEAREST', {'VF_CMP': 2}, unwind_owner='C04', sfx='.rcmp'))
             out.append(tree_case('c04', sh, 'NEAREST', {'VF_OPKSZ': 2}, unwind_owner='C04', sfx='.k2'))
+    # the continuation clause presumes "no walk is unfinished" = "no node carries the current epoch"; that a walk which ran to
+    # its end re-establishes exactly this state is an obligation of the WALK queries (tag C04.cont.pre), run here under C04
+    for sh in shapes(4 if q else 6):
+        out.append(tree_case('c04', sh, 'WALK', {}, unwind_owner='C04', sfx='.endstate'))
     return out
 
 
